@@ -41,38 +41,20 @@ type solveResult struct {
 }
 
 func firstAnswer(out string) (string, bool) {
-	voided := strings.Contains(out, "(error")
+	// an error printed before the answer voids it (e.g. a rejected declaration followed by "sat");
+	// errors after the answer come from get-value and do not affect it
 	for _, l := range strings.Split(out, "\n") {
 		l = strings.TrimSpace(l)
-		switch l {
-		case "sat", "unsat":
-			if voided && !onlyModelErrors(out) {
-				return "error", false
-			}
+		switch {
+		case l == "sat" || l == "unsat":
 			return l, true
-		case "unknown", "timeout":
+		case l == "unknown" || l == "timeout":
 			return l, false
+		case strings.HasPrefix(l, "(error"):
+			return "error", false
 		}
-	}
-	if voided {
-		return "error", false
 	}
 	return "timeout", false
-}
-
-// z3 4.8.12 prints an error for (get-value ...) after unsat; that does not void the answer.
-func onlyModelErrors(out string) bool {
-	for _, l := range strings.Split(out, "\n") {
-		if strings.Contains(l, "(error") {
-			if strings.Contains(l, "model is not available") || strings.Contains(l, "cannot get value") ||
-				strings.Contains(l, "Cannot get value") || strings.Contains(l, "cannot get model") ||
-				strings.Contains(l, "Cannot get model") || strings.Contains(l, "unsat, cannot") {
-				continue
-			}
-			return false
-		}
-	}
-	return true
 }
 
 var solverSem = make(chan struct{}, 16)
